@@ -236,6 +236,16 @@ def run_property(mod, tier, seed, replay=None):
     cov["rule"] = getattr(mod, "RULE", "")
     cov["samples"] = [dict(request=l[:400], model=m[:200], impl=c[:200]) for l, m, c in list(zip(lines, model, checked))[:: max(1, len(lines) // 6)][:8]]
     cov["tie_disagreements"] = len(dis)
+    # which entry points of the crate / of the harness the requests of this run addressed, and how often
+    kinds = {}
+    for l in lines:
+        for part in (l[len("@impl sequence "):].split(";;") if l.startswith("@impl sequence ") else [l]):
+            t = part.replace("@impl ", "").replace("@model ", "").split()
+            if t and t[0] in ("rnglog", "sweep", "interleave", "freshthreads") and len(t) > 1:
+                t = [x for x in t[1:] if "::" in x][:1] or t
+            if t:
+                kinds[t[0]] = kinds.get(t[0], 0) + 1
+    cov["entry_points_addressed"] = dict(sorted(kinds.items()))
     cov["exhaustive"] = bool(getattr(mod, "exhaustive", lambda t: False)(tier))
     cov["trusted_base"] = core_trusted() + list(getattr(mod, "TRUSTED", []))
     cov["explanation"] = getattr(mod, "EXPLANATION", "")
